@@ -52,7 +52,7 @@ type obs struct {
 	raw5       s5Reply
 	rawHTTP    []int
 	rawErr     error
-	readAhead  bool // repo HTTP client returned a connection holding read-ahead bytes
+	readAhead  bool                // repo HTTP client returned a connection holding read-ahead bytes
 	tlsPlain   []byte              // harness TLS client: every plaintext byte it read during the HTTP handshake
 	tlsState   tls.ConnectionState // harness TLS client: state after the handshake
 	tlsCut     bool                // harness TLS client: the request went out in records small enough to cut fields
